@@ -511,6 +511,9 @@ class NDCubeBase(NDCubeABC, astropy.nddata.NDData, NDCubeSlicingMixin):
             if isinstance(axis, numbers.Integral):
                 cube_pixel_axis = utils.wcs.convert_between_array_and_pixel_axes(
                     np.array([axis]), len(self.shape))[0]
+                if not 0 <= cube_pixel_axis < len(self.shape):
+                    raise IndexError(f"Axis out of range. Number of axes = {len(self.shape)}; "
+                                     f"Axis number requested = {axis}")
                 for ec_pixel_axis, mapped_pixel_axis in enumerate(extra_coords_mapping):
                     if mapped_pixel_axis == cube_pixel_axis:
                         world_indices += list(utils.wcs.pixel_axis_to_world_axes(
